@@ -302,13 +302,18 @@ Definition in_pool (o : op) (s : sys) : bool :=
   | _ => true
   end.
 
-Definition holds_ok (ns : list node) (obs : list (peer * list (key * content))) : bool :=
-  forallb (fun pf => match get_node (fst pf) ns with
-                     | Some n => held_eqb (held n) (snd pf)
+(* what was observed of a node after a step: what it holds, and the fetcher's in-flight (key, type)s *)
+Definition obs_node := (peer * list (key * content) * list (key * rtype))%type.
+
+Definition holds_ok (ns : list node) (obs : list obs_node) : bool :=
+  forallb (fun pf => match get_node (fst (fst pf)) ns with
+                     | Some n => held_eqb (held n) (snd (fst pf)) &&
+                                 kts_eqb (inflight n) (snd pf) &&
+                                 Nat.eqb (length (inflight n)) (length (snd pf))
                      | None => false end) obs.
 
-(* one observed step: the op, the undelivered messages after it, what every node holds after it *)
-Definition obs_step := (op * list msg * list (peer * list (key * content)))%type.
+(* one observed step: the op, the undelivered messages after it, every node's store and in-flight set *)
+Definition obs_step := (op * list msg * list obs_node)%type.
 
 (* The envelope in which `on_replicate` abstracts ReplicationFetcher::add_keys exactly (bridge lemma
    add_keys_idle_clean, C08): no advertised unheld entry is already in flight while another unheld
